@@ -72,6 +72,7 @@ let mk_radio datr rssi_tok ch =
   { r_rssi = z_of_int rssi; r_snr = n_of_int (snr8 + 1000); r_freq = N0; r_datr = coq_string_of datr; r_chan = n_of_int ch; r_rfch = N0; r_rx1delay = N0 }
 
 type ev =
+  | Restart
   | Init
   | Rx of rxpacket * n list * n
   | Sub of dmsg
@@ -80,6 +81,7 @@ type ev =
 let parse_event s =
   match String.split_on_char ',' s with
   | ["I"] -> Init
+  | ["Z"] -> Restart
   | "R" :: raw :: gw :: ts :: datr :: rssi :: ch :: clock :: appnonce :: newaddr :: _ ->
     let rx = { rx_raw = bytes_of_hex raw; rx_radio = mk_radio datr rssi (int_of_string ch);
                rx_gw = { g_eui = hexn gw; g_host = N0; g_port = N0; g_clock = n_of_int (int_of_string clock); g_ver = n_of_int 2 };
@@ -182,6 +184,9 @@ let run_history g obs (judge : n list -> step list -> string) =
   let (_, lines, steps, _) = List.fold_left (fun (s, lines, steps, i) ev ->
     let io = if i < Array.length iobs then iobs.(i) else "" in
     match ev with
+    | Restart ->
+      let s' = { s with s_tab = List.map (fun (eui, st) -> (eui, recover st)) s.s_tab } in
+      (s', ("Z " ^ dump_all s' euis) :: lines, { ev; pre = s; post = s'; outs = []; impl_obs = io } :: steps, i + 1)
     | Init -> (s, ("I " ^ dump_all s euis) :: lines, { ev; pre = s; post = s; outs = []; impl_obs = io } :: steps, i + 1)
     | Rx (rx, an, na) ->
       let (s', outs) = rx_event e d s rx an na (n_of_int 1) in
